@@ -6,4 +6,5 @@ pub mod exec;
 pub mod frames;
 pub mod rx;
 pub mod sim;
+pub mod tx;
 pub mod types;
